@@ -43,6 +43,10 @@ def run(ctx, obs):
     variance_model_axis(ctx, obs)
     model_axis(ctx, obs)
     bootstrap_p_range(ctx, obs)
+    from ..rules.axis import AxisEval, Contract
+    for fn in ('nc_tests', 'all_tests', 'zero_tests', 'pair_tests'):
+        q_ = U + fn
+        AxisEval(ctx, q_, {q_: Contract({'noise_ceil': ('K', 'S'), 'evaluations': ('S', 'M')})}).check_function(obs, 'AXIS', None)
 
 
 def bootstrap_p_range(ctx, obs, rule='P-RANGE'):
